@@ -119,7 +119,8 @@ def check_poolpair(model, R):
         R.ob('C02.POOLPAIR', bq, 'out_shape=%s' % (norm(osh) if osh is not None else None), osh is not None and norm(osh) == 'a_shape',
              'windows must be placed back into an array of the operand shape', bk.loc)
         # reducer pairing: max <-> max_backward, mean <-> mean_backward
-        fred = [n.func.attr for n in body_walk(fk.node) if isinstance(n, ast.Call) and isinstance(n.func, ast.Attribute) and n.func.attr in ('max', 'mean', 'min', 'sum')]
+        from sa.npcanon import npname
+        fred = [npname(model, fk, n) for n in body_walk(fk.node) if isinstance(n, ast.Call) and npname(model, fk, n) in ('max', 'mean', 'min', 'sum')]
         bred = [dotted(n.func) for n in body_walk(bk.node) if isinstance(n, ast.Call) and dotted(n.func) in ('max_backward', 'mean_backward', 'min_backward', 'sum_backward')]
         R.ob('C02.POOLPAIR', bq, 'reducer %s / %s' % (fred, bred), len(fred) == 1 and bred == [fred[0] + '_backward'],
              'the window reduction of the forward and the reducer backward must be siblings', bk.loc)
